@@ -640,11 +640,27 @@ fn run_sandboxed(def: &CheckDef, space: &Space, pass_args: &[String]) -> Local {
     }
     let total = Mutex::new(Local::default());
     let _ = def;
+    // every confirmed hang costs the wall budget several times over: after a few process deaths the verdict
+    // is established and the rest of this space is abandoned (recorded in the counters)
+    let deaths = AtomicU64::new(0);
+    const MAX_DEATHS: u64 = 12;
     std::thread::scope(|s| {
         for _ in 0..n {
             s.spawn(|| {
                 let mut child = spawn_child(pass_args, &space.name);
                 loop {
+                    if deaths.load(SeqCst) >= MAX_DEATHS {
+                        let mut q = queue.lock().unwrap();
+                        let left: u64 = q.iter().map(|(a, b)| b - a).sum();
+                        q.clear();
+                        drop(q);
+                        if left > 0 {
+                            let mut st = Local::default();
+                            st.count("cases_abandoned_after_repeated_process_deaths", left);
+                            total.lock().unwrap().merge(st);
+                        }
+                        break;
+                    }
                     let Some((lo, hi)) = queue.lock().unwrap().pop_front() else { break };
                     match run_range(&mut child, lo, hi, false) {
                         ChildEnd::Done(l) => total.lock().unwrap().merge(l),
@@ -675,6 +691,7 @@ fn run_sandboxed(def: &CheckDef, space: &Space, pass_args: &[String]) -> Local {
                                 let _ = c2.proc.kill();
                                 let _ = c2.proc.wait();
                             }
+                            deaths.fetch_add(1, SeqCst);
                             // what the dead worker had accumulated for [lo, idx) is lost: re-run that part
                             // (it completes: those cases already passed once and cases are deterministic)
                             l.evals = 1;
@@ -707,6 +724,7 @@ fn run_sandboxed(def: &CheckDef, space: &Space, pass_args: &[String]) -> Local {
                                     std::process::exit(2);
                                 }
                                 ChildEnd::Died { idx, kind, detail } => {
+                                    deaths.fetch_add(1, SeqCst);
                                     let mut l = Local::default();
                                     l.evals = 1;
                                     if idx > lo {
